@@ -18,6 +18,10 @@ GetInfoCases ==
           THEN {RespCase("GetInfo", [GiMin EXCEPT !.certifications = <<c>>], BIG, "certifications-subset") :
                    c \in SubsetsOf(CertMin, CertOptVals)}
           ELSE {})
+    \* the size-related members against each other at the values real transports have
+    \cup {RespCase("GetInfo", [GiFull(F) EXCEPT !.maxMsgSize = <<BN(m)>>, !.maxSerializedLargeBlobArray = <<BN(a)>>], BIG, "getinfo-size-grid") :
+             m \in {64, 1024, 1200, 3072, 3073, 4096, 7609, 7610, 65536}, a \in {0, 1024, 3008, 3009, 4096, 65536}}
+
 
 McCases ==
     {RespCase("MakeCredential", v, BIG, "mc-subset") : v \in SubsetsOf(McRespMin, McRespOptVals)}
